@@ -151,7 +151,7 @@ def build_alphabet(darsia):
             out.append(A(g, f, it))
         return np.concatenate(out)
 
-    def wass(kind, pair, shape=(4, 5), vs=(1.0, 0.75)):
+    def wass(kind, pair, shape=(4, 5), vs=(1.0, 0.75), scribble=False):
         from vf.gen import wass as W
 
         if kind.endswith("_big") or kind.endswith("_big_aa"):
@@ -201,7 +201,14 @@ def build_alphabet(darsia):
         if kind == "bregman_amg_custom":
             np.random.seed(0)  # pyamg's multilevel set-up draws from the global generator
         d, info = w1(m1, m2)
-        return np.concatenate([[d], np.asarray(info["flux"]).ravel(), np.asarray(info["pressure"]).ravel()])
+        out = np.concatenate([[d], np.asarray(info["flux"]).ravel(), np.asarray(info["pressure"]).ravel()])
+        if scribble:
+            # the caller post-processes what he was handed out, in place (every array of the info dictionary)
+            for v_ in info.values():
+                if isinstance(v_, np.ndarray) and v_.dtype.kind == "f" and v_.flags.writeable:
+                    v_ *= 0.5
+                    v_ += 1.0
+        return out
 
     A = {
         "jac_h1": lambda: jac(1.0, 1.0, 1.0),
@@ -276,6 +283,8 @@ def build_alphabet(darsia):
         "mg_upd_scalar": mg_update_scalar,
         # independent solver objects on a grid with the same voxel counts and another physical size
         "w_newton_other_domain": lambda: wass("newton_direct", 0, vs=(2.0, 0.5)),
+        "w_newton_outputs_modified": lambda: wass("newton_direct", 0, scribble=True),
+        "w_bregman_outputs_modified": lambda: wass("bregman_direct", 0, scribble=True),
         "w_bregman_other_domain": lambda: wass("bregman_direct", 0, vs=(2.0, 0.5)),
         "sb_caller_arrays_A": lambda: sb_caller_arrays("A"),
         "sb_caller_arrays_B": lambda: sb_caller_arrays("B"),
@@ -292,7 +301,7 @@ LETTERS = [
     "mg2_small", "mg2_regular", "w_bregman_L2_A", "w_bregman_L2_B", "w_bregman_L2fr_A", "w_bregman_L2fr_B", "w_bregman_amg_custom",
     "w_bregman_big_A", "w_bregman_big_B", "w_bregman_big_aa_A", "w_bregman_big_aa_B", "w_newton_big_A", "w_newton_big_B",
     "tvd_obj_A", "tvd_obj_B", "tvd_obj_x0", "w_bregman_amg_multilevel_A", "w_bregman_amg_multilevel_B", "w_newton_cg_multilevel_A",
-    "mg_upd_scalar", "sb_caller_arrays_A", "sb_caller_arrays_B", "w_newton_other_domain", "w_bregman_other_domain",
+    "mg_upd_scalar", "sb_caller_arrays_A", "sb_caller_arrays_B", "w_newton_other_domain", "w_bregman_other_domain", "w_newton_outputs_modified", "w_bregman_outputs_modified",
 ]
 # letters that can share state with each other (same object or same module-level default)
 GROUPS = {
@@ -308,9 +317,9 @@ GROUPS = {
     "w_amg_multilevel": ["w_bregman_amg_multilevel_A", "w_bregman_amg_multilevel_B", "w_newton_cg_multilevel_A", "w_bregman_amg_custom"],
     "tvd": ["tvd_chambolle"],
     "anderson": ["aa_seq1", "aa_seq2"],
-    "w_newton": ["w_newton_A", "w_newton_B", "w_newton_other_domain"],
+    "w_newton": ["w_newton_A", "w_newton_B", "w_newton_other_domain", "w_newton_outputs_modified"],
     "w_newton_amg_aa": ["w_newton_amg_aa_A", "w_newton_amg_aa_B"],
-    "w_bregman": ["w_bregman_A", "w_bregman_B", "w_bregman_other_domain"],
+    "w_bregman": ["w_bregman_A", "w_bregman_B", "w_bregman_other_domain", "w_bregman_outputs_modified"],
     "w_bregman_amg": ["w_bregman_amg_A", "w_bregman_amg_B", "w_bregman_amg_custom"],
     "mg_two_level": ["mg2_small", "mg2_regular"],
     "w_bregman_L2": ["w_bregman_L2_A", "w_bregman_L2_B"],
